@@ -59,7 +59,7 @@ def plan(tier, seed):
 def _eval(ev, mods, imps, cfg, acc, nontrivial_key=None, list_form=None):
     HUB.case = {"kind": "rule", "mods": mods, "imps": imps, "cfg": cfg, "list_form": list_form}
     before = acc.counters["c03_judged"]
-    run(mk_rule(cfg, list_form, retarget=c01._decoy(ev, mods, cfg)), ev)
+    run(mk_rule(cfg, list_form, retarget=c01._decoy(ev, mods, cfg), copied=c01._copy_plan(mods, cfg)), ev)
     acc.evaluated()
     if acc.counters["c03_judged"] > before:
         acc.nontrivial(nontrivial_key if nontrivial_key is not None else {"m": mods, "i": imps, "c": cfg})
